@@ -189,27 +189,51 @@ where
     where
         FIP: FnOnce() -> T,
     {
-        // We do not today make use of our right to create a "first" instance of `T` even when
-        // we do not need it. This is a potential future optimization if it proves valuable.
-
-        #[cfg(folo_verif)]
-        crate::verif_hook::point("si.global.write");
-        let mut global_registry = GLOBAL_REGISTRY.write().expect(ERR_POISONED_LOCK);
-
         // TODO: We are repeatedly acquiring the family key here and in sibling functions.
         // Perhaps a trivial cost but explore the value of eliminating the duplicate access.
         let family_key = (self.family_key_provider)();
-        let entry = global_registry.entry(family_key);
 
-        match entry {
-            hash_map::Entry::Occupied(_) => (),
-            hash_map::Entry::Vacant(entry) => {
-                // TODO: We create an instance here, only to immediately transform it back to
-                // a family. Can we skip the middle step and just create a family directly?
-                let first_instance = first_instance_provider();
-                entry.insert(Box::new(first_instance.family()));
+        // Fast path: the family is typically already registered by another thread.
+        {
+            #[cfg(folo_verif)]
+            crate::verif_hook::point("si.global.check");
+            let global_registry = GLOBAL_REGISTRY.read().expect(ERR_POISONED_LOCK);
+
+            if global_registry.contains_key(&family_key) {
+                return;
             }
         }
+
+        // We create the "first" instance outside any lock because the provider is arbitrary
+        // user code - it may even access other linked static variables, which requires
+        // the very same registry lock. This makes use of our right to create a "first"
+        // instance even when it turns out that we do not need it.
+        //
+        // TODO: We create an instance here, only to immediately transform it back to
+        // a family. Can we skip the middle step and just create a family directly?
+        let first_instance = first_instance_provider();
+        let family: Box<dyn Any + Send + Sync> = Box::new(first_instance.family());
+
+        // Optimistic concurrency control: if another thread registered the family in the
+        // meantime, that registration wins and ours is thrown away, so only one "first"
+        // instance is ever exposed to user code.
+        let unused_family = {
+            #[cfg(folo_verif)]
+            crate::verif_hook::point("si.global.write");
+            let mut global_registry = GLOBAL_REGISTRY.write().expect(ERR_POISONED_LOCK);
+
+            match global_registry.entry(family_key) {
+                hash_map::Entry::Occupied(_) => Some(family),
+                hash_map::Entry::Vacant(entry) => {
+                    entry.insert(family);
+                    None
+                }
+            }
+        };
+
+        // Destructors are arbitrary user code, too, so these are also dropped outside the lock.
+        drop(unused_family);
+        drop(first_instance);
     }
 
     // Attempts to obtain a new instance of `T` using the current thread's family registry,
